@@ -9,7 +9,7 @@ mkdir -p /verif/.target/logs
 if [ -n "$(git -C /repo status --short)" ]; then echo "/repo is not clean" >&2; exit 2; fi
 for d in seeded/C*; do
   id=$(basename $d)
-  prop=$(python3 -c "import json;print(json.load(open('$d/meta.json'))['property'])")
+  prop=$(python3 -c "import json;m=json.load(open('$d/meta.json'));print(m.get('detected_by_check_of_property',m['property']))")
   if ! git -C /repo apply /verif/$d/patch.diff 2>/dev/null; then echo "$id $prop DOES-NOT-APPLY" >> $out; continue; fi
   res=$(./check $prop --tier quick 2>&1 | grep -E "^(VIOLATION|OK|MACHINERY)" | head -1 | cut -c1-80)
   git -C /repo checkout -- .
